@@ -260,6 +260,45 @@ def obligations():
     return json.loads((LEAN / 'obligations.json').read_text())
 
 
+# ------------------------------------------------------------------------------------------------
+# source drift: which library files differ (as programs, not as text) from the tree the model was written against
+# ------------------------------------------------------------------------------------------------
+
+FINGERPRINT = LEAN / 'source_fingerprint.json'
+
+
+def _ast_hash(path):
+    import ast
+    import hashlib
+    tree = ast.parse(path.read_text())
+    for node in ast.walk(tree):          # docstrings and comments are not behaviour
+        body = getattr(node, 'body', None)
+        if isinstance(body, list) and body and isinstance(body[0], ast.Expr) and isinstance(getattr(body[0], 'value', None), ast.Constant) \
+                and isinstance(body[0].value.value, str):
+            body[0].value.value = ''
+    return hashlib.sha256(ast.dump(tree, include_attributes=False).encode()).hexdigest()[:16]
+
+
+def source_fingerprint():
+    out = {}
+    for p in sorted((REPO / 'pjrpc').rglob('*.py')):
+        try:
+            out[str(p.relative_to(REPO))] = _ast_hash(p)
+        except SyntaxError:
+            out[str(p.relative_to(REPO))] = 'syntax-error'
+    return out
+
+
+def source_drift():
+    """files whose abstract syntax differs from the recorded fingerprint (the tree the hand-written model was last
+    compared with).  Drift is not a verdict: it makes the check explore more (extra seeds) and is recorded in the evidence."""
+    if not FINGERPRINT.exists():
+        return []
+    base = json.loads(FINGERPRINT.read_text())
+    now = source_fingerprint()
+    return sorted(f for f in set(base) | set(now) if base.get(f) != now.get(f))
+
+
 def audit(prop: str):
     """`#print axioms` for every theorem listed for the property.  Returns
     {theorem: {'ok': bool, 'axioms': [...], 'why': str}}."""
